@@ -1,2 +1,121 @@
-(* C07 -- placeholder, statements follow *)
-From PF Require Import Model.Frame Model.FrameSpec.
+(* C07 -- TensorFrame row selection is coherent across all stypes and the target.
+   Statements only; every proof is `exact <lemma of Proofs/FrameProofs.v>`.
+
+   Reading guide.  `frame_of vs nm y ov` is the implementation-level TensorFrame
+   (Model/Frame.v) that stores the views vs -- one cell matrix (rows x columns x
+   cell) per stype, in dense / MultiNestedTensor / MultiEmbeddingTensor / dict
+   storage -- with column names nm, target y and explicit row count ov.
+   `frame_wf n ...` says that every feature and the target have n rows.
+   `py_positions n ix` (Lib/PySlice.v) are the positions the index expression ix
+   picks from a Python list of n rows (None where the list selection raises);
+   `sel_frame pos ...` is the frame in which THE SAME positions pos were picked
+   from every view and from the target, names unchanged.  `tf_getitem` is the
+   model of TensorFrame.__getitem__ as written. *)
+From Coq Require Import String ZArith List Bool Arith.
+From PF Require Import Lib.ListX Lib.PySlice Model.Ragged Model.RaggedSpec Model.RaggedRun Model.Frame Model.FrameSpec
+     Gen.Tables.
+From PF Require Import Proofs.MntProofs Proofs.MetProofs Proofs.FrameProofs.
+Import ListNotations.
+
+(* Every feature of every storage kind and the target contain exactly the
+   selected rows in the selected order -- the same positions for all of them --
+   names are unchanged and the explicit row count becomes the number selected. *)
+Theorem getitem_coherent : forall n vs nm yy ov ix pos,
+  frame_wf n vs yy ov ->
+  py_positions n (as_list_index ix) = Some pos ->
+  tf_getitem (frame_of vs nm yy ov) ix = Some (sel_frame pos vs nm yy ov).
+Proof. exact (getitem_coherent_proof (mnt_select_refines_proof payload) (met_select_refines_proof payload)). Qed.
+Print Assumptions getitem_coherent.
+
+(* ... or everything raises: an index that raises on a list of n rows raises on
+   every frame that has a feature, a target or an explicit row count. *)
+Theorem getitem_raises : forall n vs nm yy ov ix,
+  frame_wf n vs yy ov ->
+  vs <> [] \/ yy <> None \/ ov <> None ->
+  py_positions n (as_list_index ix) = None ->
+  tf_getitem (frame_of vs nm yy ov) ix = None.
+Proof. exact (getitem_raises_proof (mnt_select_refines_proof payload) (met_select_refines_proof payload)). Qed.
+Print Assumptions getitem_raises.
+
+(* The reported length is the number of selected rows (zero included) and the
+   column names are those of the source; this covers frames without features
+   (explicit num_rows) as the case vs = []. *)
+Theorem getitem_len_names : forall n vs nm yy ov ix pos,
+  frame_wf n vs yy ov ->
+  py_positions n (as_list_index ix) = Some pos ->
+  exists f', tf_getitem (frame_of vs nm yy ov) ix = Some f'
+             /\ tf_num_rows f' = Some (length pos) /\ names f' = nm.
+Proof. exact (getitem_len_proof (mnt_select_refines_proof payload) (met_select_refines_proof payload)). Qed.
+Print Assumptions getitem_len_names.
+
+(* the result is again a frame of (length pos) rows, usable in any further selection *)
+Theorem getitem_preserves_wf : forall n vs yy ov pos,
+  frame_wf n vs yy ov -> Forall (fun i => i < n) pos ->
+  frame_wf (length pos) (map (fun sv => (fst sv, vsel pos (snd sv))) vs) (option_map (ysel pos) yy)
+           (option_map (fun _ => length pos) ov).
+Proof. exact frame_wf_sel. Qed.
+Print Assumptions getitem_preserves_wf.
+
+(* Chains tf[i1][i2]...[ik] of any length, through empty intermediate frames:
+   by induction, every step picks the same positions everywhere, and the chain
+   raises exactly when a step raises on the list. *)
+Theorem getitem_chain : forall p n vs nm yy ov,
+  frame_wf n vs yy ov ->
+  vs <> [] \/ yy <> None \/ ov <> None ->
+  tf_getitem_chain (frame_of vs nm yy ov) p = spec_chain n vs nm yy ov p.
+Proof. exact (getitem_chain_proof (mnt_select_refines_proof payload) (met_select_refines_proof payload)). Qed.
+Print Assumptions getitem_chain.
+
+(* A slice that overshoots the end behaves like the same slice on a Python
+   list: tf[a:b] with a <= n <= b keeps rows a .. n-1 of every feature. *)
+Theorem overshooting_slice : forall n vs nm yy ov a b,
+  frame_wf n vs yy ov -> a <= n -> n <= b ->
+  tf_getitem (frame_of vs nm yy ov) (ISlice (Some (Z.of_nat a)) (Some (Z.of_nat b)) None)
+  = Some (sel_frame (seq a (n - a)) vs nm yy ov)
+  /\ (forall m : cellmat payload, length m = n -> pick_rows (seq a (n - a)) m = skipn a m).
+Proof.
+  intros n vs nm yy ov a b Hwf Ha Hb. split.
+  - apply (getitem_coherent n); [exact Hwf|]. exact (overshoot_positions n a b Ha Hb).
+  - intros m Hm. exact (overshoot_rows m n a Hm Ha).
+Qed.
+Print Assumptions overshooting_slice.
+
+(* a frame without features and with an explicit row count *)
+Theorem getitem_featureless : forall n nm ix pos,
+  py_positions n (as_list_index ix) = Some pos ->
+  tf_getitem (MkTF [] nm None (Some n)) ix = Some (MkTF [] nm None (Some (length pos))).
+Proof.
+  intros n nm ix pos E. apply (getitem_coherent n [] nm None (Some n) ix pos); [|exact E].
+  split; [constructor|split; [exact I|reflexivity]].
+Qed.
+Print Assumptions getitem_featureless.
+
+(* ------------------------------------------------------------------ *)
+(* Non-vacuity: a 3-row frame with one feature of every storage kind, a target
+   and an explicit row count is well-formed; selecting [2, 0] and then the
+   overshooting slice [1:5] computes. *)
+Definition ex_vs : list (stype * fview) :=
+  [ (st_numerical, VDense 2 1 [[[Some 1%Z]; [Some 2%Z]]; [[None]; [Some 4%Z]]; [[Some 5%Z]; [Some 6%Z]]]);
+    (st_multicategorical, VNested 1 [[[Some 7%Z; Some 8%Z]]; [[]]; [[Some 9%Z]]]);
+    (st_embedding, VEmb [2; 0] [[[Some 10%Z; Some 11%Z]; []]; [[Some 12%Z; None]; []]; [[Some 14%Z; Some 15%Z]; []]]);
+    (st_text_tokenized, VDict [("input_ids"%string, (1, [[[Some 16%Z]]; [[]]; [[Some 17%Z; Some 18%Z]]]));
+                               ("attention_mask"%string, (1, [[[Some 1%Z]]; [[]]; [[Some 1%Z; Some 1%Z]]]))]) ].
+Definition ex_names : list (stype * list string) :=
+  [ (st_numerical, ["a"; "b"]%string); (st_multicategorical, ["m"]%string); (st_embedding, ["e"; "f"]%string);
+    (st_text_tokenized, ["t"]%string) ].
+Definition ex_y : option (list payload) := Some [Some 100%Z; Some 200%Z; Some 300%Z].
+
+Example ex_frame_wf : frame_wf 3 ex_vs ex_y (Some 3).
+Proof.
+  unfold frame_wf, ex_vs, ex_y. split; [|split; reflexivity].
+  repeat match goal with |- _ <> _ => discriminate | |- _ => constructor end.
+Qed.
+
+Example ex_validates : tf_validate (frame_of ex_vs ex_names ex_y (Some 3)) = true.
+Proof. vm_compute. reflexivity. Qed.
+
+Example ex_chain :
+  tf_getitem_chain (frame_of ex_vs ex_names ex_y (Some 3))
+                   [ITensor [2; 0]%Z; ISlice (Some 1%Z) (Some 5%Z) None]
+  = Some (sel_frame [0] ex_vs ex_names ex_y (Some 3)).
+Proof. vm_compute. reflexivity. Qed.
